@@ -80,8 +80,17 @@ def run(ctx):
             raise MachineryError(f"gamma/sigma/alpha identity fails for {sh}: {d}")
     # --- every method, every row, every tree up to the advertised order
     nconds = 0
+    objects = []
     for method in rk.method_list:
-        obj = rk.RungeKutta(method)
+        objects.append((method, rk.RungeKutta(method)))
+        # the tableau a propagator actually receives: through EvolveConfig, for both settings of `adaptive`
+        for adaptive in (True, False):
+            try:
+                cfgobj = EvolveConfig(EvolveMethod.prop_and_compress_tdrk, rk_solver=method, adaptive=adaptive, guess_dt=0.1)
+                objects.append((f"{method}@EvolveConfig(adaptive={adaptive})", cfgobj.rk_config))
+            except Exception as ex:
+                ctx.violation(f"C19:{method}:config-raises:adaptive={adaptive}", f"EvolveConfig(rk_solver={method}, adaptive={adaptive}) raised {type(ex).__name__}: {ex}", {"method": method})
+    for method, obj in objects:
         a, b, c = obj.tableau
         stage = obj.stage
         A = [[lift(a[i][j]) for j in range(stage)] for i in range(stage)]
@@ -120,11 +129,7 @@ def run(ctx):
                                   f"{method} row {row}: derived expansion coefficient {ti[row][k]} != 1/{k}!", {"method": method, "row": row, "k": k})
         # advertised order is sharp for the highest row? (observation only)
         # config plumbing: the tableau a config hands to the propagator is this one
-        if method in ("RKF45", "Cash-Karp45"):
-            cfgobj = EvolveConfig(EvolveMethod.prop_and_compress_tdrk, rk_solver=method, adaptive=True, guess_dt=0.1)
-        else:
-            cfgobj = EvolveConfig(EvolveMethod.prop_and_compress_tdrk, rk_solver=method)
-        if cfgobj.rk_config.method != method or cfgobj.rk_config.order != obj.order:
+        if "@" in method and obj.method != method.split("@")[0]:
             ctx.violation(f"C19:{method}:config", "EvolveConfig.rk_config does not carry the requested tableau", {"method": method})
     for order in range(0, 31):
         te = rk.TaylorExpansion(order)
